@@ -138,5 +138,257 @@ ExternCells ==
     IN Cell("extern-instantiated", sh, "", d, <<DefC(1, TNone, I(0))>>, <<DefC(1, TNone, BLit("Ext", sh))>>)
     : sh \in Shapes }
 
-\*PART2
+(* ---------------------------------------------------------------- snippets: enums *)
+VLit(i) == IF VHasPay(i) THEN Var1("E", VName[i], MVal(i)) ELSE Var0("E", VName[i])
+\* one arm per listed variant; payload variants bind and print their payload
+Arm(i, j) == IF VHasPay(i) THEN CArmB(VName[i], 5 + j, <<Print(V(5 + j))>>) ELSE CArm(VName[i], <<>>)
+Arms(sh) == [j \in 1..N(sh) |-> Arm(sh.idx[j], j)]
+ZArm == CArm("Zz", <<>>)
+ZArmB == CArmB("Zz", 9, <<Print(V(9))>>)
+
+EnumCells ==
+  UNION {
+    LET d == <<Raw(EnumDeclText("E", sh))>>
+        val == IF N(sh) > 0 THEN VLit(sh.idx[1]) ELSE I(0)
+        def == DefM(4, TNone, val)
+        \* scrutinee through a parameter annotated with the enum type; called when a value exists
+        viaParam(arms) == <<LocalFn(2, TEn, <<Ex(CaseT(V(2), arms))>>)>>
+                          \o (IF N(sh) > 0 THEN <<Ex(Call(V(3), <<val>>))>> ELSE <<>>)
+        viaUntyped(arms) == <<LocalFn(2, TNone, <<Ex(CaseT(V(2), arms))>>), Ex(Call(V(3), <<val>>))>>
+    IN
+      \* a variant the enum does not have is constructed (with / without payload)
+      {Cell("enum-construct-unknown", sh, "-payload", d, <<DefC(4, TNone, val)>>, <<DefC(4, TNone, Var1("E", "Zz", I(1)))>>),
+       Cell("enum-construct-unknown", sh, "-bare", d, <<DefC(4, TNone, val)>>, <<DefC(4, TNone, Var0("E", "Zz"))>>)}
+      \* ... matched in a case that has an else (so totality is not in play)
+      \cup (IF N(sh) > 0 THEN
+             {Cell("enum-match-unknown", sh, "-last", d,
+                   <<def, Ex(CaseE(V(4), Arms(sh), <<>>))>>, <<def, Ex(CaseE(V(4), Arms(sh) \o <<ZArm>>, <<>>))>>),
+              Cell("enum-match-unknown", sh, "-first", d,
+                   <<def, Ex(CaseE(V(4), Arms(sh), <<>>))>>, <<def, Ex(CaseE(V(4), <<ZArm>> \o Arms(sh), <<>>))>>),
+              Cell("enum-match-unknown", sh, "-binding", d,
+                   <<def, Ex(CaseE(V(4), Arms(sh), <<>>))>>, <<def, Ex(CaseE(V(4), Arms(sh) \o <<ZArmB>>, <<>>))>>),
+              Cell("enum-match-unknown", sh, "-only", d,
+                   <<def, Ex(CaseE(V(4), <<>>, <<>>))>>, <<def, Ex(CaseE(V(4), <<ZArm>>, <<>>))>>)}
+            ELSE {})
+      \* case without else: one variant not listed / an unknown variant listed in addition
+      \cup {Cell("case-missing-variant", sh, "-omit" \o Digit(j), d,
+                 <<def, Ex(CaseT(V(4), Arms(sh)))>>, <<def, Ex(CaseT(V(4), Without(Arms(sh), j)))>>) : j \in 1..N(sh)}
+      \cup (IF N(sh) > 0 THEN
+             {Cell("case-extra-variant", sh, "", d,
+                   <<def, Ex(CaseT(V(4), Arms(sh)))>>, <<def, Ex(CaseT(V(4), Arms(sh) \o <<ZArm>>))>>)}
+            ELSE {})
+      \cup {Cell("case-param-missing-variant", sh, "-omit" \o Digit(j), d,
+                 viaParam(Arms(sh)), viaParam(Without(Arms(sh), j))) : j \in 1..N(sh)}
+      \cup {Cell("case-param-extra-variant", sh, "", d, viaParam(Arms(sh)), viaParam(Arms(sh) \o <<ZArm>>))}
+      \* annotated parameter, function never called
+      \cup {Cell("case-param-missing-variant-uncalled", sh, "-omit" \o Digit(j), d,
+                 <<LocalFn(2, TEn, <<Ex(CaseT(V(2), Arms(sh)))>>)>>, <<LocalFn(2, TEn, <<Ex(CaseT(V(2), Without(Arms(sh), j)))>>)>>) : j \in 1..N(sh)}
+      \* unannotated parameter: the requirement meets the enum at the call
+      \cup {Cell("case-untyped-param-missing-variant", sh, "-omit" \o Digit(j), d,
+                 viaUntyped(Arms(sh)), viaUntyped(Without(Arms(sh), j))) : j \in 1..N(sh)}
+      \cup (IF N(sh) > 0 THEN
+             {Cell("case-untyped-param-extra-variant", sh, "", d, viaUntyped(Arms(sh)), viaUntyped(Arms(sh) \o <<ZArm>>))}
+            ELSE {})
+    : sh \in Shapes }
+
+(* ---------------------------------------------------------------- snippets: tuples *)
+TupLens == 1..3
+TupLit(n) == Tup([j \in 1..n |-> I(j)])
+TupTy(n) == TTuple([j \in 1..n |-> TInt])
+TCell(kind, shape, sub, base, planted) ==
+    [kind |-> kind, shape |-> shape, sub |-> sub, decls |-> <<>>, base |-> base, planted |-> planted]
+TupNest(n) == Tup(<<TupLit(n), I(0)>>)
+TupOps == {"==", "!=", "+", "-", "*", "<", "<="}
+OpName(op) == CASE op = "==" -> "eq" [] op = "!=" -> "ne" [] op = "+" -> "add" [] op = "-" -> "sub" [] op = "*" -> "mul"
+                [] op = "<" -> "lt" [] op = "<=" -> "le"
+LenPairs == {<<n, m>> \in TupLens \X TupLens : n # m}
+PairShape(n, m) == "len" \o Digit(n) \o "/len" \o Digit(m)
+
+TupleCells ==
+  UNION {
+    {TCell("tuple-index-eq-length", "len" \o Digit(n), "literal",
+           <<DefC(11, TNone, Idx(TupLit(n), n - 1))>>, <<DefC(11, TNone, Idx(TupLit(n), n))>>),
+     TCell("tuple-index-eq-length", "len" \o Digit(n), "variable",
+           <<DefC(10, TNone, TupLit(n)), DefC(11, TNone, Idx(V(10), n - 1))>>, <<DefC(10, TNone, TupLit(n)), DefC(11, TNone, Idx(V(10), n))>>),
+     TCell("tuple-index-length-plus-1", "len" \o Digit(n), "literal",
+           <<DefC(11, TNone, Idx(TupLit(n), n - 1))>>, <<DefC(11, TNone, Idx(TupLit(n), n + 1))>>),
+     TCell("tuple-index-length-plus-1", "len" \o Digit(n), "variable",
+           <<DefC(10, TNone, TupLit(n)), DefC(11, TNone, Idx(V(10), 0))>>, <<DefC(10, TNone, TupLit(n)), DefC(11, TNone, Idx(V(10), n + 1))>>),
+     TCell("tuple-index-eq-length", "len" \o Digit(n), "annotated-param",
+           <<LocalFn(2, TupTy(n), <<Print(Idx(V(2), n - 1))>>)>>, <<LocalFn(2, TupTy(n), <<Print(Idx(V(2), n))>>)>>)}
+    : n \in TupLens }
+  \cup UNION {
+    LET n == p[1]
+        m == p[2]
+    IN
+    {TCell("tuple-length-mismatch-" \o OpName(op), PairShape(n, m), "",
+           <<DefC(11, TNone, Bin(op, TupLit(n), TupLit(n)))>>, <<DefC(11, TNone, Bin(op, TupLit(n), TupLit(m)))>>) : op \in TupOps}
+    \cup {TCell("tuple-length-mismatch-" \o OpName(op), PairShape(n, m), "nested",
+           <<DefC(11, TNone, Bin(op, TupNest(n), TupNest(n)))>>, <<DefC(11, TNone, Bin(op, TupNest(n), TupNest(m)))>>) : op \in {"==", "+"}}
+    \cup
+    {TCell("tuple-length-mismatch-list-elements", PairShape(n, m), "",
+           <<DefC(11, TNone, Lst(<<TupLit(n), TupLit(n)>>))>>, <<DefC(11, TNone, Lst(<<TupLit(n), TupLit(m)>>))>>),
+     TCell("tuple-length-mismatch-return", PairShape(n, m), "",
+           <<DefC(3, TNone, Fn(<<>>, TupTy(n), <<Ex(TupLit(n))>>))>>, <<DefC(3, TNone, Fn(<<>>, TupTy(n), <<Ex(TupLit(m))>>))>>),
+     TCell("tuple-length-mismatch-annotated-def", PairShape(n, m), "",
+           <<DefM(10, TupTy(n), TupLit(n))>>, <<DefM(10, TupTy(n), TupLit(m))>>),
+     TCell("tuple-length-mismatch-assign", PairShape(n, m), "",
+           <<DefM(10, TupTy(n), TupLit(n)), Asg("=", V(10), TupLit(n))>>, <<DefM(10, TupTy(n), TupLit(n)), Asg("=", V(10), TupLit(m))>>),
+     TCell("tuple-length-mismatch-argument", PairShape(n, m), "",
+           <<LocalFn(2, TupTy(n), <<>>), Ex(Call(V(3), <<TupLit(n)>>))>>, <<LocalFn(2, TupTy(n), <<>>), Ex(Call(V(3), <<TupLit(m)>>))>>)}
+    : p \in LenPairs }
+
+(* ---------------------------------------------------------------- snippets: break / continue *)
+\* a terminating loop around `body`, counter id c
+LoopAround(c, body) == <<DefM(c, TInt, I(0)), Loop(Bin("<", V(c), I(1)), <<Asg("+=", V(c), I(1))>> \o body)>>
+Words == {"break", "continue"}
+W(w) == IF w = "break" THEN Break ELSE Cont
+\* `inner` is what sits inside a function that is inside a loop
+InLoopFn(form, inner) ==
+    CASE form = "closure"  -> LoopAround(20, <<Ex(Call(Fn(<<>>, TVoid, inner), <<>>))>>)
+      [] form = "fn-def"   -> LoopAround(20, <<DefC(3, TNone, Fn(<<>>, TVoid, inner)), Ex(Call(V(3), <<>>))>>)
+      [] form = "method"   -> LoopAround(20, <<DefC(3, TNone, BlobL("CM", <<FI("m", Fn(<<>>, TVoid, inner))>>)),
+                                               Ex(Call(Fld(V(3), "m"), <<>>))>>)
+      [] form = "closure-argument" -> LoopAround(20, <<Ex(Call(V(951), <<Fn(<<>>, TVoid, inner)>>))>>)
+FnForms == {"closure", "fn-def", "method", "closure-argument"}
+LCell(kind, sub, decls, base, planted) ==
+    [kind |-> kind, shape |-> "-", sub |-> sub, decls |-> decls, base |-> base, planted |-> planted]
+\* helper that calls the closure it is given
+CallerDecl == <<DefN(951, "const", TNone, Fn(<<P(2, TFn(<<>>, TVoid))>>, TVoid, <<Ex(Call(V(2), <<>>))>>), "callit")>>
+
+LoopCells ==
+  UNION {
+    {LCell(w \o "-outside-loop", "bare", <<>>, LoopAround(21, <<W(w)>>), <<W(w)>>),
+     LCell(w \o "-outside-loop", "after-loop", <<>>, LoopAround(21, <<W(w)>>), LoopAround(21, <<>>) \o <<W(w)>>),
+     LCell(w \o "-outside-loop", "in-if", <<>>, LoopAround(21, <<Ex(If1(Bo(TRUE), <<W(w)>>))>>), <<Ex(If1(Bo(TRUE), <<W(w)>>))>>)}
+    \cup {LCell(w \o "-in-" \o f \o "-in-loop", "direct", CallerDecl,
+                InLoopFn(f, LoopAround(21, <<W(w)>>)), InLoopFn(f, <<W(w)>>)) : f \in FnForms}
+    \cup {LCell(w \o "-in-" \o f \o "-in-loop", "in-if", CallerDecl,
+                InLoopFn(f, LoopAround(21, <<Ex(If1(Bo(TRUE), <<W(w)>>))>>)), InLoopFn(f, <<Ex(If1(Bo(TRUE), <<W(w)>>))>>)) : f \in FnForms}
+    : w \in Words }
+
+(* ---------------------------------------------------------------- contexts *)
+GStart == 1000
+GHelper == 1001
+GRes == 1002
+CtxPrelude == <<EnumD("CE", <<VD1("P", TInt), VD0("Q")>>), BlobD("CM", <<FD("m", TFn(<<>>, TVoid))>>)>>
+StartDef(body) == DefN(GStart, "const", TNone, Fn(<<>>, TVoid, body), "start")
+
+\* a snippet that is one definition can also be a global definition
+IsSingleDef(stmts) == Len(stmts) = 1 /\ stmts[1].k = "def"
+
+ContextNames == {"start", "helper", "global", "global-iife", "closure", "branch", "else-branch", "case-arm",
+                 "case-else", "loop", "method"}
+
+InContext(c, s) ==
+  CASE c = "start"  -> <<StartDef(s)>>
+    [] c = "helper" -> <<DefN(GHelper, "const", TNone, Fn(<<>>, TVoid, s), "helper"), StartDef(<<Ex(Call(V(GHelper), <<>>))>>)>>
+    [] c = "global" -> <<DefN(GRes, s[1].kind, s[1].ty, s[1].e, "gres"), StartDef(<<Ex(V(GRes))>>)>>
+    [] c = "global-iife" -> <<DefN(GRes, "const", TNone, IIFE(TInt, s \o <<Ex(I(0))>>), "gres"), StartDef(<<Ex(V(GRes))>>)>>
+    [] c = "closure" -> <<StartDef(<<DefC(901, TNone, Fn(<<>>, TVoid, s)), Ex(Call(V(901), <<>>))>>)>>
+    [] c = "branch" -> <<StartDef(<<DefM(902, TBool, Bo(TRUE)), Ex(If2(V(902), s, <<>>))>>)>>
+    [] c = "else-branch" -> <<StartDef(<<DefM(902, TBool, Bo(TRUE)), Ex(If2(V(902), <<>>, s))>>)>>
+    [] c = "case-arm" -> <<StartDef(<<DefM(903, TNone, Var1("CE", "P", I(1))),
+                                      Ex(CaseE(V(903), <<CArmB("P", 904, s)>>, <<>>))>>)>>
+    [] c = "case-else" -> <<StartDef(<<DefM(903, TNone, Var1("CE", "P", I(1))),
+                                       Ex(CaseE(V(903), <<CArm("Q", <<>>)>>, s))>>)>>
+    [] c = "loop" -> <<StartDef(<<DefM(905, TInt, I(0)),
+                                  Loop(Bin("<", V(905), I(1)), <<Asg("+=", V(905), I(1))>> \o s)>>)>>
+    [] c = "method" -> <<StartDef(<<DefC(906, TNone, BlobL("CM", <<FI("m", Fn(<<>>, TVoid, s))>>)),
+                                    Ex(Call(Fld(V(906), "m"), <<>>))>>)>>
+
+\* where a cell can be placed: `global` needs a single definition in base and planted; a break / continue that is
+\* planted directly (not inside its own function) would be legal inside the context's loop
+ContextsOf(cell) ==
+  {c \in ContextNames :
+     /\ (c = "global" => IsSingleDef(cell.base) /\ IsSingleDef(cell.planted))
+     /\ (c = "loop" => ~(cell.kind \in {"break-outside-loop", "continue-outside-loop"}))}
+
+Cells == BlobCells \cup ExternCells \cup EnumCells \cup TupleCells \cup LoopCells
+
+Program(cell, c, which) ==
+  [main |-> CtxPrelude \o cell.decls \o InContext(c, IF which = "base" THEN cell.base ELSE cell.planted), other |-> <<>>]
+
+ShapeCases ==
+  UNION { {[id |-> [kind |-> cell.kind, shape |-> cell.shape, sub |-> cell.sub, ctx |-> c],
+            base |-> Program(cell, c, "base"), planted |-> Program(cell, c, "planted")] : c \in ContextsOf(cell)}
+          : cell \in Cells }
+
+(* ---------------------------------------------------------------- the entry point *)
+GoodStart(pure) == DefN(GStart, "const", TNone, IF pure THEN Pu(<<>>, TVoid, <<>>) ELSE Fn(<<>>, TVoid, <<>>), "start")
+Filler == DefN(GRes, "const", TInt, I(1), "gres")
+MkFn(pure, ps, r, body) == IF pure THEN Pu(ps, r, body) ELSE Fn(ps, r, body)
+\* [main, other] of the planted program; the base is the same with a well-typed start in the main file
+EntryKinds == {"no-start", "start-only-in-used-file", "start-only-in-used-file-and-called", "start-only-local",
+               "start-takes-parameter", "start-takes-untyped-parameter", "start-returns-int", "start-returns-untyped-value",
+               "start-is-int-constant", "start-is-list-constant"}
+BadStart(kind, pure) ==
+  CASE kind = "start-takes-parameter" -> DefN(GStart, "const", TNone, MkFn(pure, <<P(1, TInt)>>, TVoid, <<>>), "start")
+    [] kind = "start-takes-untyped-parameter" -> DefN(GStart, "const", TNone, MkFn(pure, <<P(1, TNone)>>, TVoid, <<>>), "start")
+    [] kind = "start-returns-int" -> DefN(GStart, "const", TNone, MkFn(pure, <<>>, TInt, <<Ex(I(1))>>), "start")
+    [] kind = "start-returns-untyped-value" -> DefN(GStart, "const", TNone, MkFn(pure, <<>>, TNone, <<Ex(I(1))>>), "start")
+    [] kind = "start-is-int-constant" -> DefN(GStart, "const", TNone, I(1), "start")
+    [] kind = "start-is-list-constant" -> DefN(GStart, "const", TNone, Lst(<<I(1)>>), "start")
+LocalStartText == "helper :: fn do\n    start :: fn do\n    end\n    start()\nend"
+UseOther == Raw("use other")
+OtherWithStart == <<StartDef(<<>>)>>
+OtherPlain == <<DefN(1003, "const", TInt, I(2), "oval")>>
+
+EntryCell(kind, sub, ctx, bmain, pmain, other) ==
+  [id |-> [kind |-> "entry-" \o kind, shape |-> "-", sub |-> sub, ctx |-> ctx],
+   base |-> [main |-> bmain, other |-> other], planted |-> [main |-> pmain, other |-> other]]
+
+EntryCases ==
+  UNION {
+    {EntryCell("no-start", fl, "single-file", <<Filler, GoodStart(pure)>>, <<Filler>>, <<>>),
+     EntryCell("no-start", fl, "uses-file-without-start", <<UseOther, Filler, GoodStart(pure)>>, <<UseOther, Filler>>, OtherPlain),
+     EntryCell("start-only-in-used-file", fl, "uses-file-with-start",
+               <<UseOther, Filler, GoodStart(pure)>>, <<UseOther, Filler>>, <<GoodStart(pure)>>),
+     EntryCell("start-only-in-used-file-and-called", fl, "uses-file-with-start",
+               <<UseOther, DefN(GHelper, "const", TNone, Fn(<<>>, TVoid, <<Ex(Call(Std("other.start"), <<>>))>>), "helper"), GoodStart(pure)>>,
+               <<UseOther, DefN(GHelper, "const", TNone, Fn(<<>>, TVoid, <<Ex(Call(Std("other.start"), <<>>))>>), "helper")>>,
+               <<GoodStart(pure)>>),
+     EntryCell("start-only-local", fl, "single-file", <<Raw(LocalStartText), GoodStart(pure)>>, <<Raw(LocalStartText)>>, <<>>)}
+    \cup UNION {
+      {EntryCell(kd, fl, "single-file", <<Filler, GoodStart(pure)>>, <<Filler, BadStart(kd, pure)>>, <<>>),
+       EntryCell(kd, fl, "uses-file-without-start", <<UseOther, Filler, GoodStart(pure)>>, <<UseOther, Filler, BadStart(kd, pure)>>, OtherPlain),
+       \* a used file offers a well-typed start: the main file's own start is still the wrong one
+       EntryCell(kd, fl, "uses-file-with-start", <<UseOther, Filler, GoodStart(pure)>>, <<UseOther, Filler, BadStart(kd, pure)>>, OtherWithStart),
+       EntryCell(kd, fl, "start-defined-first", <<GoodStart(pure), Filler>>, <<BadStart(kd, pure), Filler>>, <<>>)}
+      : kd \in EntryKinds \ {"no-start", "start-only-in-used-file", "start-only-in-used-file-and-called", "start-only-local"} }
+    : <<fl, pure>> \in {<<"fn", FALSE>>, <<"pu", TRUE>>} }
+
+Cases == ShapeCases \cup EntryCases
+
+(* ---------------------------------------------------------------- expectation *)
+Clause(kind) ==
+  CASE kind \in {"blob-missing-field", "blob-extra-field"} -> "literal-fields"
+    [] kind \in {"blob-read-unknown-on-literal", "blob-read-unknown", "blob-write-unknown", "blob-param-read-unknown",
+                 "blob-param-write-unknown", "blob-param-read-unknown-uncalled", "blob-untyped-param-read-unknown"} -> "field-access"
+    [] kind \in {"enum-construct-unknown", "enum-match-unknown"} -> "variant-exists"
+    [] kind \in {"case-missing-variant", "case-extra-variant", "case-param-missing-variant", "case-param-extra-variant",
+                 "case-param-missing-variant-uncalled", "case-untyped-param-missing-variant", "case-untyped-param-extra-variant"} -> "case-totality"
+    [] kind \in {"tuple-index-eq-length", "tuple-index-length-plus-1"} -> "tuple-index"
+    [] kind \in {"tuple-length-mismatch-" \o OpName(op) : op \in TupOps}
+             \cup {"tuple-length-mismatch-annotated-def", "tuple-length-mismatch-assign", "tuple-length-mismatch-argument",
+                   "tuple-length-mismatch-list-elements", "tuple-length-mismatch-return"} -> "tuple-length"
+    [] kind = "extern-instantiated" -> "extern-instance"
+    [] kind \in {w \o "-outside-loop" : w \in Words} \cup {w \o "-in-" \o f \o "-in-loop" : w \in Words, f \in FnForms} -> "loop-control"
+    [] kind \in {"entry-" \o e : e \in EntryKinds} -> "entry-point"
+
+Kinds == {c.id.kind : c \in Cases}
+
+\* what the property demands of an observation [class, loads, stage]: stage = "syntax" when the parser rejected the
+\* program - a planted program must get past the parser, or the case says nothing about the rule under test
+BaseHolds(obs) == obs.class = "ok" /\ obs.loads = "yes"
+PlantedHolds(obs) == obs.class = "err" /\ obs.stage # "syntax"
+Why(base, planted) ==
+  CASE planted.class = "ok" -> "planted-accepted"
+    [] planted.class = "panic" -> "planted-panic"
+    [] planted.class = "err" /\ planted.stage = "syntax" -> "planted-rejected-by-parser"
+    [] base.class = "panic" -> "base-panic"
+    [] base.class = "err" -> "base-rejected"
+    [] base.loads # "yes" -> "base-does-not-load"
+    [] OTHER -> "none"
+=============================================================================
 =============================================================================
